@@ -3,6 +3,7 @@ exception, never a hang.  Exception-class monitor at the boundary of convert() a
 import io
 import os
 import random
+import signal
 import time
 
 from .. import harness, run
@@ -184,11 +185,35 @@ def run_cli(case):
     return res
 
 
+class CpuBudget(BaseException):
+    """Raised inside the observed call by the virtual-time interval timer: the call used its CPU budget and is abandoned."""
+
+
+def with_budget(fn):
+    """Run fn() under a CPU-time (not wall-clock) limit: a conversion that would never return is cut off and reported, it
+    does not take the whole check with it.  The regex engine and the interpreter loop both poll for signals."""
+    def on_alarm(signum, frame):
+        raise CpuBudget()
+
+    try:
+        old = signal.signal(signal.SIGVTALRM, on_alarm)
+    except ValueError:                    # not the main thread: no timer, the shard watchdog is all there is
+        return fn()
+    signal.setitimer(signal.ITIMER_VIRTUAL, CPU_LIMIT + 4)
+    try:
+        return fn()
+    except CpuBudget:
+        return {"ok": False, "documented": False, "exc": "CpuBudget", "site": None, "stem": "", "cpu": CPU_LIMIT + 4, "cut_off": True}
+    finally:
+        signal.setitimer(signal.ITIMER_VIRTUAL, 0)
+        signal.signal(signal.SIGVTALRM, old)
+
+
 def run_case(case):
     obs = {"counters": {"convert_calls": 1}, "viols": [], "sets": {}}
     kind = case["kind"]
     if kind == "cli":
-        res = run_cli(case)
+        res = with_budget(lambda: run_cli(case))
         text = case["text"]
         obs["key"] = "cli|" + case["stem"] + "|" + " ".join(case["flags"]) + "|" + text
     else:
@@ -216,17 +241,19 @@ def run_case(case):
                 from coco.b09.configs import CompilerConfigs, StringConfigs
 
                 cfg = CompilerConfigs(string_configs=StringConfigs(strname_to_size=case["map"]))
-                res = harness.convert(text, compiler_configs=cfg, default_str_storage=64)
+                res = with_budget(lambda: harness.convert(text, compiler_configs=cfg, default_str_storage=64))
             except Exception as exc:  # noqa: BLE001
                 documented, cls, site, stem = harness.classify_exception(exc)
                 res = {"ok": False, "documented": documented, "exc": cls, "site": site, "stem": stem, "cpu": 0}
         else:
-            res = harness.convert(text, **opts)
+            res = with_budget(lambda: harness.convert(text, **opts))
     if res["ok"]:
         obs["counters"]["accepted"] = 1
     elif res["documented"]:
         obs["counters"]["refused"] = 1
         obs["sets"]["refusal_classes"] = [res["exc"]]
+    elif res.get("cut_off"):
+        obs["counters"]["cut_off"] = 1        # reported below as C15/cpu-budget
     else:
         obs["counters"]["internal"] = 1
         sig = "C15/%s/%s/%s" % (res["exc"], res["site"], (res.get("stem") or "")[:40].strip().replace(" ", "_"))
@@ -264,6 +291,16 @@ def cases(tier, seed):
         yield {"kind": "text", "text": t}
         yield {"kind": "text", "text": t, "opts": {"initialize_vars": True, "filter_unused_linenum": True,
                                                  "output_dependencies": True, "procname": "p-1", "default_str_storage": 80}}
+    # the words the library bundler scans the emitted text for (RUN <name>, PROCEDURE <name>, the size tag), inside long
+    # literals, remarks and DATA: whatever scans for them is linear in the length of the line
+    long_tail = " THE GAME ONE MORE TIME OR PRESS BREAK TO GO BACK TO BASIC AND SAVE YOUR SCORE"
+    for head in ("PRESS ENTER TO RUN", "run", "PROCEDURE", "X: STRING<<>>", "RUN ecb_cls \\ RUN"):
+        for n_ in (1, 3):
+            lit = head + long_tail * n_
+            for t in ('10 PRINT "%s"' % lit, '10 A$="%s":PRINT A$;"%s"' % (lit, lit), "10 REM %s" % lit, "10 PRINT 1 '%s" % lit,
+                      '10 DATA %s,"%s"\n20 READ A$,B$' % (lit, lit), '10 INPUT "%s";A$' % lit, '10 PLAY "C":PRINT "%s' % lit):
+                yield {"kind": "text", "text": t, "opts": {"output_dependencies": True, "procname": "p"}}
+                yield {"kind": "text", "text": t, "opts": {"output_dependencies": True, "procname": "p", "default_str_storage": 80, "filter_unused_linenum": True}}
     for m in BAD_CONFIGS:
         yield {"kind": "cfg", "text": '10 DIM A$(3),B$:A$(1)="X"', "map": m}
     rng = random.Random(4242 + seed)
